@@ -67,6 +67,15 @@ func NewRequestContext(ctx context.Context, req *envoy_auth.CheckRequest) *Reque
 
 	// envoy provides the path as received, that is in its escaped form
 	rawPath := req.GetAttributes().GetRequest().GetHttp().GetPath()
+	rawQuery := req.GetAttributes().GetRequest().GetHttp().GetQuery()
+
+	// envoy sends the complete request target (path and query) in the path attribute and leaves
+	// the query attribute empty (see the documentation of the AttributeContext.HttpRequest message)
+	if len(rawQuery) == 0 {
+		if idx := strings.IndexByte(rawPath, '?'); idx != -1 {
+			rawPath, rawQuery = rawPath[:idx], rawPath[idx+1:]
+		}
+	}
 
 	path, err := url.PathUnescape(rawPath)
 	if err != nil {
@@ -83,7 +92,7 @@ func NewRequestContext(ctx context.Context, req *envoy_auth.CheckRequest) *Reque
 			Host:     req.GetAttributes().GetRequest().GetHttp().GetHost(),
 			Path:     path,
 			RawPath:  rawPath,
-			RawQuery: req.GetAttributes().GetRequest().GetHttp().GetQuery(),
+			RawQuery: rawQuery,
 			Fragment: req.GetAttributes().GetRequest().GetHttp().GetFragment(),
 		},
 		reqBody:         req.GetAttributes().GetRequest().GetHttp().GetBody(),
